@@ -177,7 +177,8 @@ def main(run, tier):
     import contracts.scopes as csc
     import contracts.obfuscator as cobf
     import contracts.namegen as cng
-    verify_functions(run, cob.build(obfmod) + csc.build(obfmod) + cobf.build(obfmod) + cng.build(obfmod), {}, {}, tier=tier)
+    import contracts.remap as crm
+    verify_functions(run, cob.build(obfmod) + csc.build(obfmod) + cobf.build(obfmod) + cng.build(obfmod) + crm.build(obfmod), {}, {}, tier=tier)
     name_generator_obligation(run, obfmod, lexmod, tier)
     # what the obfuscation rule set plugs into a printer: the identifier resolver, its token handler and the pre-walk -- nothing that
     # could alter any other token ("differs only in identifier spellings")
@@ -346,7 +347,9 @@ def main(run, tier):
                'Scope.resolve, Scope / CatchScope.build_remap_symbols (which symbols get which generated name), and the symbol tables for '
                'arbitrary set contents: declare, reference, close, declared / global / non-local / leaked symbols, global symbols of the '
                'children, _reserved_symbols (contains every free name used here or below and the new name of every outer symbol used '
-               'here), construction and nesting of scopes; neighbours of a scope (parent, children) are doubles with arbitrary sets '
+               'here), construction and nesting of scopes; Scope.resolve and the renaming loop of build_remap_symbols also in state form over '
+               'arbitrary tables (contracts/remap.py: every referenced local symbol gets a generated name outside the reserved set, names '
+               'pairwise different, other entries untouched); neighbours of a scope (parent, children) are doubles with arbitrary sets '
                '(induction hypothesis over the scope tree).  NOT proved: the composition of these contracts into capture freedom of a '
                'whole program (order of marker events along the walk; that close() has propagated every use below before the reserved '
                'set is read) -- bounded only, against spec/scopes.py; CatchScope.declare has no contract (known finding F15 lives there)',
